@@ -338,7 +338,9 @@ theorem Decomposed.relAll_symm {R V : Type} (rr : R → R → Bool) (rv : V → 
     (hs : ∀ x y, r x y = r y x) (hsr : ∀ x y, rr x y = rr y x) (hsv : ∀ x y, rv x y = rv y x)
     (a b : Decomposed R V α) : Decomposed.relAll r rr rv a b = Decomposed.relAll r rr rv b a := by
   simp only [Decomposed.relAll]; rw [hs a.scale, hsr a.rot, hsv a.disp]
-/-- a single component beyond tolerance makes the compound values unequal: remaining types -/
+/-- a single component beyond tolerance makes the compound values unequal: `Vector3`, `Vector2`, `Quaternion`, in bundled form (one
+hypothesis per type, all three are needed to obtain the conjunction; the per-type statements, for every compound type, are
+`V3.relAll_false_of_component` etc. in `Props/C18c.lean`) -/
 theorem relAll_false_of_component (a3 b3 : V3 α) (a2 b2 : V2 α) (p q : Quat α)
     (h3 : r a3.x b3.x = false ∨ r a3.y b3.y = false ∨ r a3.z b3.z = false)
     (h2 : r a2.x b2.x = false ∨ r a2.y b2.y = false)
